@@ -65,8 +65,9 @@ CLONE_EXPRS = ("c.plain", "c.chain2", "c.chain3", "c.field", "c.callrecv", "c.re
 BLOCK_EXPRS = ("b.fs.full", "b.fs.short", "b.fs.leading", "b.sleep.full", "b.sleep.short", "b.net.full", "b.net.mid",
                "b.net.bare", "b.l.tokio_fs", "b.l.tokio_sleep", "b.l.tokio_net", "b.l.other_mod", "b.l.crate_fs",
                "b.l.env", "b.l.path", "b.l.string", "b.l.method_read")
-HOSTS = ("let", "expr", "arg", "macro", "closure", "cbarg", "field", "cond", "match", "wrap", "ml")
-CLONE_HOSTS = ("expr", "arg", "macro", "cbarg", "cond", "match")  # hosts that do not put the clone under a `let`
+HOSTS = ("let", "expr", "arg", "macro", "closure", "cbarg", "field", "cond", "match", "wrap", "ml",
+         "guard", "arm", "index", "whilecond", "letelse", "ret")
+CLONE_HOSTS = ("expr", "arg", "macro", "cbarg", "cond", "match", "guard", "arm", "index", "ret")  # hosts that do not put the clone under a `let`
 TRAILERS = ("", "?", ".unwrap()", '.expect("io")')
 
 
@@ -282,6 +283,14 @@ def _atom(r: _R, st: dict, depth: int, ctx: dict):
             "cond": ("if check(", f") {{ log({n}); }}"),
             "match": ("match ", f" {{ _ => log({n}) }}"),
             "wrap": (f"let h{n} = tokio::task::spawn_blocking(move || ", ");"),
+            # less common expression positions: a match-arm guard, a match-arm value, an index expression, the condition
+            # of an `if` written as `while`-free one-shot check, the initialiser of a let-else, a conditional early return
+            "guard": ("match probe() { q if check(", f") => log({n}), _ => log(0) }}"),
+            "arm": ("match probe() { _ => sink(", ") }"),
+            "index": ("sink(table[index_of(", ")]);"),
+            "whilecond": ("if !check(", f") {{ log({n}); }}"),
+            "letelse": (f"let Some(r{n}) = wrap(", ") else { return; };"),
+            "ret": ("if probe() { return sink(", "); }"),
         }[host]
         line = r.emit(depth, prefix + text + suffix)
         for c in calls:
